@@ -21,6 +21,26 @@ def run(res):
         shutil.rmtree(work, ignore_errors=True)
 
 
+def _name_theorems(failure, log):
+    """`lake build failed: …/Props/C16.lean:358:2 …` -> add the names of the theorems that no longer check"""
+    import re
+    names = []
+    for rel in ("BindgenModel/Props/C16.lean", "BindgenModel/Lemmas/CDecl.lean"):
+        path = os.path.join(common.LEAN, rel)
+        if not os.path.exists(path):
+            continue
+        lines = open(path).read().splitlines()
+        for m in re.finditer(re.escape(rel) + r":(\d+):\d+: error", log + "\n" + failure.replace(": ", ": error ")):
+            n = int(m.group(1))
+            for i in range(min(n, len(lines)) - 1, -1, -1):
+                t = re.match(r"\s*theorem (\w+)", lines[i])
+                if t:
+                    if t.group(1) not in names:
+                        names.append(t.group(1))
+                    break
+    return ("theorem(s) " + ", ".join(names) + " no longer check: " if names else "") + failure
+
+
 def _harness(res, work, extra, env=None):
     rc, out, rep = common.run_harness("c16", res, work, extra_args=extra, extra_env=env, timeout=3300)
     if rep is None:
@@ -35,7 +55,7 @@ def _run(res, work, extra):
         broken.append(("translator", "translator: " + "; ".join(l for l in tlog.splitlines() if "FAILED" in l)))
     lean = common.lean_obligations("C16", res.tier)
     for f in lean["failures"]:
-        broken.append(("proof-obligation", f))
+        broken.append(("proof-obligation", _name_theorems(f, lean["log"])))
     okh, hlog = common.cargo_build_harness(["c16"])
     if not okh:
         res.violation("correspondence", "bindgen no longer builds inside the C16 harness (API used by the correspondence changed)", hlog[-3000:], found_input=False)
